@@ -114,6 +114,9 @@ pub struct ActScript {
     pub mw_dispatch: Vec<(CompId, Hook, ActId)>,
     /// stall executed by reducer `comp` while reducing this action
     pub red_stall: Vec<(CompId, Stall)>,
+    /// every scripted subscriber that is notified of this action bumps this gate's `entered`
+    /// counter (non-blocking): lets a client wait until the action has been fully processed
+    pub signal: Option<GateId>,
 }
 
 impl ActScript {
